@@ -171,6 +171,11 @@ func runMerge(
 	if !strings.HasPrefix(name, "heads/") {
 		return fmt.Errorf("%q is not a branch name", args[0])
 	}
+	if _, numPeel, _ := ref.ParseNavigationChars(args[0]); numPeel > 0 {
+		// BRANCH^ / BRANCH~n name an ancestor of the branch head: "merging into" it
+		// would move the branch off its own history
+		return fmt.Errorf("%q is not a branch name", args[0])
+	}
 	commits := [][]byte{sum}
 	commitNames := []string{displayableCommitName(args[0], sum)}
 	for _, s := range args[1:] {
